@@ -60,11 +60,12 @@ func init() {
 			nR := c.field("rtxTimer", "nRtos")
 			nFail, nTimeout := 0, 0
 			forEachInstr(to, func(in ssa.Instruction) {
-				d, ok := in.(*ssa.Defer)
-				if !ok || !d.Call.IsInvoke() {
+				// the callbacks may be deferred or called explicitly after the unlock
+				d, ok := in.(ssa.CallInstruction)
+				if !ok || !d.Common().IsInvoke() {
 					return
 				}
-				switch d.Call.Method.Name() {
+				switch d.Common().Method.Name() {
 				case "onRetransmissionFailure":
 					nFail++
 					c.Dom("failure-needs-limit", d, CmpCond(token.NEQ, IsLoadOf(maxR), IsConstInt(0)), "maxRetrans != 0")
@@ -75,7 +76,7 @@ func init() {
 					rearmed := false
 					forEachInstr(to, func(x ssa.Instruction) {
 						if ci, ok := x.(ssa.CallInstruction); ok {
-							if sc := ci.Common().StaticCallee(); sc != nil && sc.Name() == "Reset" && x.Block() == d.Block() {
+							if sc := ci.Common().StaticCallee(); sc != nil && sc.Name() == "Reset" && (x.Block() == d.Block() || InstrDominates(x, d)) {
 								rearmed = true
 							}
 						}
@@ -161,8 +162,8 @@ func init() {
 			cwnd := c.Fn("Association.CWND")
 			size := c.Fn("payloadQueue.size")
 			nProbe := 0
-			for _, mc := range callsIn(pop, move) {
-				facts := DomFacts(mc.Block())
+			for _, mc := range callsInDeep(pop, move, 1) {
+				facts := DomFactsX(mc.Block())
 				underRwnd, underCwnd := false, false
 				for _, f := range facts {
 					if b, ok := f.Cond.(*ssa.BinOp); ok {
@@ -191,49 +192,122 @@ func init() {
 				}, "len(chunks)==0")
 			}
 			c.Check(nProbe == 1, "probe-site", c.P.Pos(pop.Pos()), "exactly one window-probe admission not guarded by cwnd/rwnd", fmt.Sprintf("%d unguarded admission sites", nProbe))
-			// T3 path: index 0 bypass
+			// T3 path: decision table of the selection in getDataPacketsToRetransmit by partial evaluation.
+			// Inputs: position of the chunk (first outstanding / later), "peer window smaller than the chunk",
+			// "chunk exceeds min(cwnd, rwnd)". A flagged chunk is selected (retransmit cleared) exactly when it fits
+			// the window, or it is the first outstanding one and the peer window is too small for it (window probe).
 			get := c.Fn("Association.getDataPacketsToRetransmit")
 			rt := c.field("chunkPayloadData", "retransmit")
-			var clear ssa.Instruction
-			for _, a := range c.storesIn(get, rt) {
-				if IsConstBool(false)(a.Val) {
-					clear = a.Instr
-				}
-			}
-			if clear == nil {
-				c.Fail("t3-select", "", "no 'retransmit = false' selection point in getDataPacketsToRetransmit")
-				return
-			}
-			var awndIf, bypassIf *ssa.If
 			min32 := c.Fn("min32")
-			forEachInstr(get, func(in ssa.Instruction) {
-				ifi, ok := in.(*ssa.If)
+			iqGet := c.Fn("payloadQueue.get")
+			tlr := c.Fn("Association.tlrAllowSendLocked")
+			mtu := c.Fn("Association.MTU")
+			isCmp := func(v ssa.Value) (*ssa.BinOp, bool) {
+				b, ok := v.(*ssa.BinOp)
 				if !ok {
-					return
+					return nil, false
 				}
-				b, ok := ifi.Cond.(*ssa.BinOp)
-				if !ok {
-					return
+				switch b.Op {
+				case token.LSS, token.LEQ, token.GTR, token.GEQ:
+					return b, true
 				}
-				if b.Op == token.GTR && Derives(IsCallOf(min32))(b.Y) {
-					awndIf = ifi
-				}
-				if b.Op == token.LSS && Derives(IsCallOf(rwnd))(b.X) {
-					bypassIf = ifi
-				}
-			})
-			if awndIf == nil || bypassIf == nil {
-				c.Fail("t3-window-tests", c.P.Pos(get.Pos()), "window test / probe bypass not recognised in getDataPacketsToRetransmit")
-				return
+				return nil, false
 			}
-			// bypass is reached only for index 0
-			c.Check(BlockDominatedBy(bypassIf.Block(), CmpCond(token.EQL, AnyV, IsConstInt(0))), "t3-bypass-index0", c.Pos(bypassIf), "probe bypass only for the first outstanding chunk (i == 0)", "probe bypass not restricted to i == 0")
-			// from the bypass true edge the selection is reachable without the awnd test
-			ok := reachAvoiding(bypassIf.Block().Succs[0], clear.Block(), awndIf.Block())
-			c.Check(ok, "t3-bypass-skips-awnd", c.Pos(bypassIf), "RWND < len(first chunk) reaches retransmission without the awnd test", "the zero-window bypass no longer skips the awnd test")
-			// and otherwise the awnd test guards it
-			ok2 := !reachAvoiding(bypassIf.Block().Succs[1], clear.Block(), awndIf.Block())
-			c.Check(ok2, "t3-else-awnd", c.Pos(awndIf), "all other retransmissions pass the awnd test", "a retransmission path avoids the awnd test")
+			// truth value of "left OP right" given the truth of "small < big"
+			orient := func(b *ssa.BinOp, smallIsX bool, smallLess bool) bool {
+				// smallLess: small < big holds (strict); otherwise small >= big
+				var xLessY bool
+				if smallIsX {
+					xLessY = smallLess
+				} else {
+					xLessY = !smallLess
+				}
+				switch b.Op {
+				case token.LSS, token.LEQ:
+					return xLessY
+				default:
+					return !xLessY
+				}
+			}
+			for _, first := range []bool{true, false} {
+				for _, tooSmall := range []bool{true, false} {
+					for _, exceeds := range []bool{true, false} {
+						key := fmt.Sprintf("t3-select:first=%v,peerWindowTooSmall=%v,exceedsWindow=%v", first, tooSmall, exceeds)
+						outs, und := c.P.PEval(get, PEConfig{
+							Fields: map[*types.Var]constant.Value{rt: constant.MakeBool(true)},
+							Opaque: map[*ssa.Function]bool{tlr: true, c.Fn("Association.checkPartialReliabilityStatus"): true, c.Fn("Association.rackRemove"): true, c.Fn("Association.rackInsert"): true, c.Fn("Association.bundleDataChunksIntoPackets"): true},
+							StopAfter: func(in ssa.Instruction) string {
+								if st, ok := in.(*ssa.Store); ok && fieldOfAddr(st.Addr) == rt && IsConstBool(false)(st.Val) {
+									return "selected"
+								}
+								return ""
+							},
+							StopAt: func(in ssa.Instruction) string {
+								// second visit of the loop would be the next chunk: stop when the loop counter is incremented
+								if b, ok := in.(*ssa.BinOp); ok && b.Op == token.ADD && IsConstInt(1)(b.Y) {
+									if phi, ok := b.X.(*ssa.Phi); ok && isUnitCounter(phi) {
+										return "skipped"
+									}
+								}
+								return ""
+							},
+							BindVal: func(v ssa.Value) (constant.Value, bool) {
+								switch x := v.(type) {
+								case *ssa.Phi:
+									if isUnitCounter(x) {
+										if first {
+											return constant.MakeInt64(0), true
+										}
+										return constant.MakeInt64(3), true
+									}
+								case *ssa.Extract:
+									if x.Index == 1 && IsCallOf(iqGet)(x.Tuple) {
+										return constant.MakeBool(true), true
+									}
+								case *ssa.Call:
+									if x.Call.StaticCallee() == tlr {
+										return constant.MakeBool(true), true
+									}
+								case *ssa.BinOp:
+									b, ok := isCmp(x)
+									if !ok {
+										return nil, false
+									}
+									dX, dY := Derives(IsCallOf(min32))(b.X), Derives(IsCallOf(min32))(b.Y)
+									if dX || dY {
+										// bytes+len vs awnd: "exceeds" means bytes+len > awnd, i.e. awnd < bytes+len
+										return constant.MakeBool(orient(b, dX, exceeds)), true
+									}
+									mX, mY := Derives(IsCallOf(mtu))(b.X), Derives(IsCallOf(mtu))(b.Y)
+									if mX || mY {
+										// the chunk fits the MTU: size <= mtu, i.e. NOT mtu < size
+										return constant.MakeBool(orient(b, mX, false)), true
+									}
+									rX, rY := Derives(IsCallOf(rwnd))(b.X), Derives(IsCallOf(rwnd))(b.Y)
+									if rX || rY {
+										return constant.MakeBool(orient(b, rX, tooSmall)), true
+									}
+								}
+								return nil, false
+							}})
+						if und != "" || len(outs) == 0 {
+							c.Fail(key, c.P.Pos(get.Pos()), "UNDECIDED: "+und)
+							continue
+						}
+						want := !exceeds || (first && tooSmall)
+						why := ""
+						for _, o := range outs {
+							if want && o.Label != "selected" {
+								why = "a flagged chunk that may be sent is not selected (path ends in '" + o.Label + "')"
+							}
+							if !want && o.Label == "selected" {
+								why = "a chunk beyond the window is selected although it is not a first-chunk window probe"
+							}
+						}
+						c.Check(why == "", key, c.P.Pos(get.Pos()), fmt.Sprintf("selected=%v on all %d path(s)", want, len(outs)), why)
+					}
+				}
+			}
 		}})
 
 	register(&Rule{ID: "C02.R5", Props: []string{"C02"}, Engine: "E3",
@@ -663,4 +737,21 @@ func (c *RuleCtx) ackTriggerChain() {
 		})
 		c.Check(ok, "trigger:handleInbound-ends", c.Pos(sc), "every packet whose chunks were handled ends with handleChunksEnd (fatal ABORT excepted)", "a path skips handleChunksEnd: "+c.P.InstrPos(bad))
 	}
+}
+
+// isUnitCounter: an integer loop counter φ(0, φ+1).
+func isUnitCounter(phi *ssa.Phi) bool {
+	if len(loopBlocks(phi.Block())) == 0 {
+		return false
+	}
+	zero, step := false, false
+	for _, e := range phi.Edges {
+		if IsConstInt(0)(e) {
+			zero = true
+		}
+		if b, ok := e.(*ssa.BinOp); ok && b.Op == token.ADD && b.X == ssa.Value(phi) && IsConstInt(1)(b.Y) {
+			step = true
+		}
+	}
+	return zero && step
 }
